@@ -205,6 +205,38 @@ def check_schema(schema, tier, acc=None):
                 bad('digest-suffix-not-ignored', f'check(/{"/".join(pt)}, /{"/".join(kt)}) = {got} but {g2}/{g3}/{g4} with a trailing implicit digest '
                                                  f'on the packet name / the key name / both')
                 break
+    if not viol:
+        # components that differ as bytes but read the same as text (a typed number in two widths): still different components; every
+        # ordered pair, so that an earlier verdict on a look-alike name is there to be confused with
+        V1, V1W = bytes([0x36, 1, 1]), bytes([0x36, 2, 0, 1])
+        A = lvs_ref.comp('a')
+        extra = [[V1], [V1W], [A, V1], [A, V1W], [V1, A], [V1W, A], [V1, V1], [V1, V1W]]
+        for pn, kn in itertools.product(extra, repeat=2):
+            want = ref.check(pn, kn)
+            try:
+                got = bool(ck.check(list(pn), list(kn)))
+            except Exception as e:  # noqa
+                bad(f'check-raises:{type(e).__name__}@{tb_where(e)}|look-alike-names', f'{e!r}')
+                break
+            if got != want:
+                bad(f'check-differs|look-alike-names|library={got}|reference={want}',
+                    f'check({[c.hex() for c in pn]}, {[c.hex() for c in kn]}) = {got}, the schema text says {want} (v=1 written in one and in two bytes '
+                    f'are different components)')
+                break
+    if not viol:
+        # the verdicts do not depend on the logging configuration of the process
+        from mc.ndnenv import debug_logging
+        sample = [(pn, kn) for (pt, pn), (kt, kn) in itertools.product(names[:6], repeat=2)]
+        before = [bool(ck.check(list(pn), list(kn))) for pn, kn in sample]
+        try:
+            with debug_logging():
+                after = [bool(ck.check(list(pn), list(kn))) for pn, kn in sample]
+        except Exception as e:  # noqa
+            bad(f'check-raises:{type(e).__name__}@{tb_where(e)}|debug-logging', f'{e!r}')
+            after = before
+        if after != before:
+            i = [a != b for a, b in zip(after, before)].index(True)
+            bad('check-differs|debug-logging', f'check on pair {i} of the sample answers {after[i]} with DEBUG logging enabled and {before[i]} without')
     return ('ok' if not viol else 'viol') + ('|some-yes' if nyes else '|all-no'), viol
 
 
